@@ -212,6 +212,9 @@ func runC14(e *env) {
 	// the recorded finding (data with GET / DELETE) is shown by this file only
 	specs = append(specs, &modSpec{Name: "axios-get-with-body", ModPath: "example.com/org/api", Target: "routes.go", Class: "axios-data-argument-with-get-or-delete",
 		Files: []modFile{{"routes.go", "package main\n\nimport \"example.com/org/api/echo\"\n\ntype Params struct {\n\tA int\n}\n\ntype controller struct{}\n\nfunc (ct controller) search(c echo.Context) error {\n\tvar in Params\n\tif err := c.Bind(&in); err != nil {\n\t\treturn err\n\t}\n\tq := c.QueryParam(\"q\")\n\t_ = q\n\tvar out []int\n\treturn c.JSON(200, out)\n}\n\nfunc (ct controller) remove(c echo.Context) error {\n\tv := c.FormValue(\"fv\")\n\t_ = v\n\treturn nil\n}\n\nfunc routes(e *echo.Echo, ct *controller) {\n\te.GET(\"/search\", ct.search)\n\te.DELETE(\"/remove\", ct.remove)\n}\n"}, {"echo/echo.go", echoStub}}})
+	// the only integer of the file is a query parameter: its TypeScript type must still be declared
+	specs = append(specs, &modSpec{Name: "axios-int-query-only", ModPath: "example.com/org/api", Target: "routes.go",
+		Files: []modFile{{"routes.go", "package main\n\nimport \"example.com/org/api/echo\"\n\ntype controller struct{}\n\nfunc (controller) QueryParamInt64(echo.Context, string) int64 { return 0 }\nfunc (controller) QueryParamBool(echo.Context, string) bool   { return false }\n\nfunc (ct controller) page(c echo.Context) error {\n\tp := ct.QueryParamInt64(c, \"page\")\n\t_ = p\n\tvar out string\n\treturn c.JSON(200, out)\n}\n\nfunc (ct controller) flag(c echo.Context) error {\n\tb := ct.QueryParamBool(c, \"on\")\n\t_ = b\n\tvar out []string\n\treturn c.JSON(200, out)\n}\n\nfunc routes(e *echo.Echo, ct controller) {\n\te.GET(\"/page\", ct.page)\n\te.GET(\"/flag\", ct.flag)\n}\n"}, {"echo/echo.go", echoStub}}})
 	if m := repoFixture("repo-httpapi-routes", "analysis/httpapi/test/routes.go"); m != nil {
 		m.Class = "axios-data-argument-with-get-or-delete" // its handle1 is a GET binding a body
 		specs = append(specs, m)
